@@ -17,6 +17,8 @@ from ._ops import one_flag
 def mech(flags) -> str:
     if "class_shadows_template_import" in flags:
         return ":class_shadows_template_import"
+    if "typed_single_reference_wrapper" in flags:
+        return ":typed_single_reference_wrapper"
     if "package_with_unresolved_imports" in flags:
         return ":package_with_unresolved_imports"
     if "derived_local_captures_property" in flags:
@@ -33,6 +35,8 @@ def judge_roundtrip(vd, ev, a, res, witness_base, prop="C02", capture=None, pkg_
         flags = ["derived_local_captures_property"]  # document-level trigger (C18 mechanism), see _ops.derived_local_capture
     if capture == "class_shadows_template_import":
         flags = ["class_shadows_template_import"]  # document-level trigger (C01 mechanism), see harness.class_shadows_template_import
+    if capture == "typed_single_reference_wrapper":
+        flags = ["typed_single_reference_wrapper"]  # document-level trigger (C10 mechanism), see _ops.typed_reference_wrapper
     w = dict(witness_base, cls=a["cls"], value=a["value"], label=x.get("label"), flags=flags)
     ev.count("roundtrips")
     if res.get("action_exc"):
@@ -108,6 +112,9 @@ def main() -> int:
         capture = derived_local_capture(r.get("manifest") or {})
         if capture:
             run.ev.count("documents_with_derived_local_capture_trigger")
+        from ._ops import typed_reference_wrapper
+        if not capture and typed_reference_wrapper(j["doc"]):
+            capture = "typed_single_reference_wrapper"
         from ..harness import class_shadows_template_import
         if class_shadows_template_import(r.get("manifest") or {}):
             capture = "class_shadows_template_import"
